@@ -18,6 +18,10 @@ Engine E1 (smallscope) + host/helper observation.  Full product (no sampling) of
     added_sys_path=[root], smart_sys_path=False; thorough: 3 combinations more; in the
     cwd=project levels also Script(code) without path}
   x environment {helper process (SameEnvironment), in-process (InterpreterEnvironment)}
+  x (own level) host sys.path shape {no '' | '' first | '' in the middle | '' twice | relative
+    entries} x environment kind {SameEnvironment | Script(environment=InterpreterEnvironment())
+    | jedi.Interpreter} x options x symbols x forms: the in-process environment hands jedi the
+    host's LIVE sys.path, which must be entry-for-entry the same after every call
   x working directory {neutral, project root (helpers are spawned inside the tree)}
   x every Script query and refactoring method (17 calls) at every marked position + the
     file-level methods, result attributes touched; Project.search / Project.complete_search
@@ -342,6 +346,30 @@ POS_METHODS = [
 ]
 PROJECT_OPTIONS = ['none', 'default', 'sys_path', 'added_sys_path', 'nosmart']
 PROJECT_OPTIONS_MORE = ['sys_path+env', 'sys_path+nosmart', 'added+nosmart']
+
+
+# shapes of the HOST's sys.path while a query runs (the in-process environment hands out the live
+# list): no '' entry at all | '' first (REPL, python -c) | '' in the middle | '' twice | a relative
+# entry.  '' and '.' mean the working directory, which is the neutral directory in this family.
+HOST_SHAPES = ['no-empty', 'empty-first', 'empty-middle', 'empty-twice', 'relative']
+ENV_KINDS = ['helper', 'inproc', 'interpreter']   # SameEnvironment | Script(environment=
+#                                   InterpreterEnvironment()) | jedi.Interpreter(code, [{}])
+
+
+def shaped_path(base, shape):
+    base = [p for p in base if p not in ('', '.')]
+    k = len(base) // 2
+    if shape == 'no-empty':
+        return base
+    if shape == 'empty-first':
+        return [''] + base
+    if shape == 'empty-middle':
+        return base[:k] + [''] + base[k:]
+    if shape == 'empty-twice':
+        return [''] + base[:k] + [''] + base[k:]
+    if shape == 'relative':
+        return ['.'] + base[:k] + [os.path.join('c12rel', 'lib')] + base[k:]
+    raise ValueError(shape)
 
 
 def make_project(jedi, opt, root, env):
@@ -760,8 +788,8 @@ class Battery:
 def _script_battery(world, envkind, opt, bufdir, stem, code_marked, deep, path=None,
                     only_call=None):
     jedi = world.jedi
-    env = world.env(envkind)
-    wheres = ['host'] + ([envkind] if envkind != 'inproc' else [])
+    env = None if envkind == 'interpreter' else world.env(envkind)
+    wheres = ['host'] + ([envkind] if envkind not in ('inproc', 'interpreter') else [])
     code, positions = split_marks(code_marked)
     if opt == 'nopath':
         path = None         # Script(code) as typed into an unsaved buffer: project found from cwd
@@ -771,8 +799,12 @@ def _script_battery(world, envkind, opt, bufdir, stem, code_marked, deep, path=N
     holder = {}
 
     def mk():
-        holder['s'] = jedi.Script(code, path=path, environment=env,
-                                  project=make_project(jedi, opt, world.root, env))
+        project = make_project(jedi, opt, world.root, env)
+        if envkind == 'interpreter':
+            # the REPL API: creates its own InterpreterEnvironment; project None -> Project(cwd)
+            holder['s'] = jedi.Interpreter(code, [{}], path=path, project=project)
+        else:
+            holder['s'] = jedi.Script(code, path=path, environment=env, project=project)
     b.call(['Script'], mk, 'Script')
     script = holder.get('s')
     if script is None:
@@ -842,6 +874,27 @@ def parsed_files(world):
 
 def _work(task):
     """One cell of the product."""
+    shape = task.get('shape')
+    if shape:
+        return _work_shaped(task, shape)
+    return _work_plain(task)
+
+
+def _work_shaped(task, shape):
+    """Run the battery while the host's sys.path has the given shape (restored afterwards).
+    The host's baseline observation is taken after shaping, so only jedi's changes count."""
+    _world(task['variant'], task['cwd'])
+    saved = list(sys.path)
+    sys.path[:] = shaped_path(saved, shape)
+    Procs.watch.pop('host', None)
+    try:
+        return _work_plain(task)
+    finally:
+        sys.path[:] = saved
+        Procs.watch.pop('host', None)
+
+
+def _work_plain(task):
     world = _world(task['variant'], task['cwd'])
     deep = task.get('deep', False)
     kind = task['kind']
@@ -1027,9 +1080,53 @@ def _probe_project_json(task):
     return out
 
 
+def _probe_host_path_in_tree(task):
+    """NOT judged (see assumptions): the host's OWN sys.path has an entry that resolves to the
+    analysed tree ('' or '.' while the working directory is the tree) and the analysis runs
+    in-process.  jedi drops the first '' from the path it trusts; recorded: which shapes still
+    let it import the tree's auto-import module."""
+    world = World('m', _so_template, tag='-hp').enter('project')
+    jedi = world.jedi
+    name = world.autos[0] if world.autos else 'gi'
+    code = 'import %s\n%s.func\n' % (name, name)
+    saved = list(sys.path)
+    out = {}
+    for shape in HOST_SHAPES:
+        for kind in ('inproc', 'interpreter'):
+            sys.path[:] = shaped_path(saved, shape)
+            # probe only: importlib's finder cache for relative entries must not remember
+            # another working directory of this worker
+            for k in ('', '.', os.getcwd()):
+                sys.path_importer_cache.pop(k, None)
+            importlib.invalidate_caches()
+            Procs.watch.pop('host', None)
+            world.check(['host'], full=True)
+            try:
+                with warnings.catch_warnings():
+                    warnings.simplefilter('ignore')
+                    project = jedi.Project(world.root)
+                    if kind == 'inproc':
+                        sc = jedi.Script(code, path=world.fresh_path(''), project=project,
+                                         environment=jedi.InterpreterEnvironment())
+                    else:
+                        sc = jedi.Interpreter(code, [{}], path=world.fresh_path(''),
+                                              project=project)
+                    sc.infer(2, len(name) + 2)
+                    sc.complete(2, len(name) + 2)
+            except Exception as e:
+                out['%s/%s:exception' % (shape, kind)] = canon.exc_site(e)
+            found = world.check(['host'], full=True)
+            out['%s/%s' % (shape, kind)] = sorted(
+                '%s %s' % (site, d.get('executed_files', '')) for site, d in found)
+            sys.path[:] = saved
+            Procs.watch.pop('host', None)
+    return out
+
+
 def _control_any(task):
     return {'cpython': _control_cpython, 'optin': _control_optin,
-            'project_json': _probe_project_json}[task['control']](task)
+            'project_json': _probe_project_json,
+            'host_path_in_tree': _probe_host_path_in_tree}[task['control']](task)
 
 
 # ------------------------------------------------------------------------------------------
@@ -1038,6 +1135,8 @@ def _control_any(task):
 
 def _input_id(t):
     head = '%s/cwd=%s/env=%s/opt=%s' % (t['variant'], t['cwd'], t.get('env', 'default'), t['opt'])
+    if t.get('shape'):
+        head += '/host-sys.path=' + t['shape']
     if t['kind'] == 'form':
         return '%s/%s/%s' % (head, t['sym'], t['form'])
     if t['kind'] == 'special':
@@ -1098,6 +1197,16 @@ def _levels(tier, autos, have_so):
          searches('m', 'neutral', base_strings + strings['m'])
          + searches('p', 'neutral', strings['p'])),
     ]
+    # the host's own sys.path as a dimension: environment kind x shape, complete product
+    shape_syms = [x for x in compiled_m if not x.endswith('(text)')] + ['setup.py']
+    shape_forms = FORMS if deep else ['import', 'from', 'docstring', 'incomplete']
+    levels.insert(2, (
+        'host sys.path shape x environment kind (SameEnvironment | Script(environment='
+        'InterpreterEnvironment()) | jedi.Interpreter) x options x symbols x forms (cwd neutral)',
+        [{'kind': 'form', 'variant': 'm', 'cwd': 'neutral', 'env': env, 'opt': opt, 'sym': sym,
+          'form': form, 'deep': deep, 'shape': shape}
+         for shape in HOST_SHAPES for env in ENV_KINDS for opt in PROJECT_OPTIONS
+         for sym in shape_syms for form in shape_forms]))
     # helpers are spawned with the tree as working directory; 'nopath' = Script(code) without
     # path and project, i.e. the project is discovered from the working directory
     opts_cwd = opts + ['nopath']
@@ -1122,7 +1231,7 @@ def _controls(ctx, autos, have_so):
         unsafe.append(('m', 'xs%s(real)' % EXT))
     negative = [('m', 'x%s(text)' % EXT), ('m', 'setup.py'), ('m', 'conftest.py')]
     tasks = [{'control': 'cpython', 'variant': 'm'}, {'control': 'cpython', 'variant': 'p'},
-             {'control': 'project_json'}]
+             {'control': 'project_json'}, {'control': 'host_path_in_tree'}]
     tasks += [{'control': 'optin', 'variant': v, 'sym': s} for v, s in unsafe + negative]
     pres = pool.run(tasks, 'jv.props.c12:_control_any', init='jv.props.c12:_init',
                     seed=ctx.seed, tag='c12c')
@@ -1130,7 +1239,7 @@ def _controls(ctx, autos, have_so):
     cp = {}
     n_files = {}
     optin = {}
-    cfg = None
+    cfg = hostpath = None
     for i, t in enumerate(tasks):
         r = pres.results.get(i)
         if r is None:
@@ -1138,6 +1247,8 @@ def _controls(ctx, autos, have_so):
             continue
         if t['control'] == 'project_json':
             cfg = r
+        elif t['control'] == 'host_path_in_tree':
+            hostpath = r
         elif t['control'] == 'cpython':
             n_files[t['variant']] = len(r['files'])
             # .pyi files and the text file with the extension suffix cannot be run by CPython
@@ -1170,7 +1281,7 @@ def _controls(ctx, autos, have_so):
             ctx.harness_error('sensitivity control: with load_unsafe_extensions=True the symbol '
                               '%s:%s was NOT executed (%s): the guarded route is not reached, '
                               'the check would be vacuous' % (v, s, d))
-    return cp, optin, n_files, cfg
+    return cp, optin, n_files, cfg, hostpath
 
 
 def _warm_up():
@@ -1209,7 +1320,7 @@ def run(ctx):
         ctx.note('no C compiler: the real shared-object symbol is not generated')
     _so_template = template
     _warm_up()
-    cp_control, optin, n_files, cfg_probe = _controls(ctx, autos, have_so)
+    cp_control, optin, n_files, cfg_probe, hostpath_probe = _controls(ctx, autos, have_so)
 
     levels, mods = _levels(ctx.tier, autos, have_so)
     sym_files = {(v, m['sym']): m['files'] for v in mods for m in mods[v]}
@@ -1227,7 +1338,7 @@ def run(ctx):
                     seed=ctx.seed, deadline=ctx.deadline, tag='c12')
     ctx.absorb(pres, 'exploration')
     states = transitions = na = 0
-    sym_hits, form_hits, opt_hits, env_hits = {}, {}, {}, {}
+    sym_hits, form_hits, opt_hits, env_hits, shape_hits = {}, {}, {}, {}, {}
     exc_sites = {}
     parsed = set()
     pointed = set()
@@ -1272,6 +1383,12 @@ def run(ctx):
         oh = opt_hits.setdefault(t['opt'], {'batteries': 0, 'results_in_tree_files': 0})
         oh['batteries'] += 1
         oh['results_in_tree_files'] += in_tree
+        if t.get('shape'):
+            sh = shape_hits.setdefault('%s/env=%s' % (t['shape'], t['env']),
+                                       {'batteries': 0, 'calls': 0, 'calls_with_results': 0})
+            sh['batteries'] += 1
+            sh['calls'] += r['calls']
+            sh['calls_with_results'] += r['nonempty']
         eh = env_hits.setdefault('env=%s/cwd=%s' % (t.get('env', 'default(Project.search)'),
                                                     t['cwd']), {'batteries': 0, 'calls': 0})
         eh['batteries'] += 1
@@ -1280,7 +1397,7 @@ def run(ctx):
             exc_sites[site] = exc_sites.get(site, 0) + n
         if r['warned']:
             warned_syms[key] = warned_syms.get(key, 0) + 1
-        shapes.add((key, t.get('form'), t['opt'], t.get('env'), r['nonempty'] > 0,
+        shapes.add((key, t.get('form'), t['opt'], t.get('env'), t.get('shape'), r['nonempty'] > 0,
                     tuple(sorted(f for f in r['hit_files'] if f in files_v))))
         parsed.update(r.get('parsed', ()))
         for site, detail in r['found']:
@@ -1324,6 +1441,7 @@ def run(ctx):
                      'project_methods': [m + (repr(k) if k else '') for m, k in PROJECT_CALLS]},
         'symbol_hits': sym_hits, 'form_hits': form_hits, 'option_hits': opt_hits,
         'environment_hits': env_hits,
+        'host_sys.path_shape_x_environment_kind_hits': shape_hits,
         'symbols_with_no_result_in_own_files': sorted(
             k for k, h in sym_hits.items() if h['results_in_own_files'] == 0),
         'tree_files': n_files,
@@ -1334,6 +1452,7 @@ def run(ctx):
         'control_cpython_executes': cp_control,
         'control_optin_executes': optin,
         'not_judged:tree_supplied_.jedi/project.json_with_default_project': cfg_probe,
+        'not_judged:host_sys.path_entry_resolving_to_the_tree(cwd=tree,in-process)': hostpath_probe,
         'api_exceptions_not_judged_here': exc_sites,
         'auto_import_modules': autos, 'real_shared_object': have_so,
     })
@@ -1349,6 +1468,10 @@ def run(ctx):
         '(get_cached_default_environment): that second helper is observed in the same way',
         'per call the module table of a process is re-read only when len(sys.modules) changed; '
         'a full observation closes every battery',
+        'host sys.path shapes: the family runs with a neutral working directory, so that \'\' '
+        'and relative entries of the HOST never denote the analysed tree; a host that itself '
+        'lists the tree (cwd) on its own sys.path has put the tree into the environment the '
+        'property trusts (not judged, recorded under not_judged:host_sys.path_entry...)',
         '.pth files are never read by jedi; the symbol is present in every tree and guarded by '
         'the sentinel and by the cwd=project levels (helpers started inside the tree)',
         '.jedi/project.json inside the analysed tree is jedi configuration (it can set '
